@@ -53,7 +53,8 @@ def build(repo, findings):
     && u8_of(res->Ok_0.exit_code) == (match self_.code { Some(c) => mod256(c as int), None => old(context.shell).status() })'''),
         C('C02 return-outside-function', '!(old(context.shell).in_fn() || old(context.shell).in_src()) ==> res is Ok && res->Ok_0.next_control_flow is Normal && !(res->Ok_0.exit_code is Success)'),
     ])
-    f.before(r'^\s*let code_8bit = ', 'proof { if self_.code is Some { lemma_and_ff_i32(self_.code->Some_0); } lemma_exit_code_round_trip(mod256(self_.code->Some_0 as int)); lemma_exit_code_round_trip(context.shell.status()); }', fn_name='return_execute')
+    ret_lemma = 'lemma_and_ff_i64' if 'code: Option<i64>' in open(__import__('os').path.join(repo, 'brush-builtins/src/return_.rs')).read() else 'lemma_and_ff_i32'    # the field's integer type, as written
+    f.before(r'^\s*let code_8bit = ', 'proof { if self_.code is Some { %s(self_.code->Some_0); }' % ret_lemma + ' lemma_exit_code_round_trip(mod256(self_.code->Some_0 as int)); lemma_exit_code_round_trip(context.shell.status()); }', fn_name='return_execute')
     u.add(f)
     f = builtin(u, 'brush-builtins/src/exit.rs', 'ExitCommand', 'exit_execute')
     f.sig('exit_execute', ret='res', ensures=[
